@@ -78,6 +78,33 @@ CLAIMED = {
          'Known findings: 10 classes (wildcards as regex prefix match, "="/"<>" texts literal, blank cast to 0, ordering on text cell raises, '
          'COUNTIFS drops zeros / compares None, AVERAGEIFS text/blank target, SUMIF text target, dateutil-parsed texts, dropped & literal).',
     technique='Coq proof (list induction) + kernel-exhaustive sweep + regenerated regex tables + vm_compute correspondence', ref='6/C12'),
+ 'C03': dict(
+    text='Unbounded Coq theorems over an abstract dependency-graph model of CellTranslator (memoised DFS, register-after-precedents, '
+         'in-progress set): whenever translation from an entry succeeds the slice contains the entry, is closed under dependencies and contains '
+         'only reachable cells; every cell of a closed slice evaluates as in any larger class (whole workbook) under any overrides and depth; '
+         'a cyclic set is never translated, is rejected with the parser exception once fuel exceeds the number of cells (never the recursion '
+         'limit), the exception is raised only for genuine cycles, acyclic workbooks always translate. Correspondence: random graphs rendered '
+         'as real multi-sheet formulas (all reference forms), every outcome compared with the model and with an independent reachability spec; '
+         'slice-vs-whole values compared on the implementation.',
+    note='Formulas are abstracted to dependency lists (den_ext). Python\'s recursion limit is fuel. No known findings.',
+    technique='Coq proof (induction on fuel, pigeonhole on the in-progress path) + vm_compute correspondence', ref='6/C03'),
+ 'C04': dict(
+    text='Unbounded Coq refinement proof: the Executor state machine (handle_cell normalisation, set_cells with per-uid overrides, lazy flush '
+         'into the argument map, get_cell/get_cells/get_sheet, failing calls) refines an abstract last-write-wins map for ALL histories; and '
+         'evaluating with an override map equals evaluating, without overrides, the workbook edited to those constants (any dependency structure, '
+         'depth, override set incl. blank/out-of-range cells). Correspondence: histories replayed on the real Executor, state snapshots '
+         '(_cells, _arguments, _sheets_size) and queried uids compared step by step in Coq; every returned value compared with a fresh '
+         'translation of the edited workbook.',
+    note='The generated class is abstract in the model (function of uid and argument map). Cell objects are not aliased by the harness. '
+         'No known findings (F3/F4 fixed).',
+    technique='Coq proof (refinement by invariant, induction over operation lists) + trace correspondence', ref='6/C04'),
+ 'C08': dict(
+    text='Coq theorems on the same Executor state machine: queries preserve overrides, titles and sizes and the abstract map; any number of '
+         'queries in any order leaves later answers unchanged; every query is answered against the same map whatever preceded it; the sheet grid '
+         'has exactly last_row x last_column entries whose uids are those of single-cell queries; A1-style/title and numeric addressing coincide; '
+         'set_cells only grows sizes. Correspondence as for C04, with history-independence, grid-shape and state-preservation oracles on the implementation.',
+    note='Purity of the generated class itself is checked on the implementation (fresh executor per query). TODAY() excluded.',
+    technique='Coq proof (state-machine invariants) + trace correspondence', ref='6/C08'),
 }
 
 ids = [json.loads(l)['id'] for l in open('/verif/properties.jsonl')]
